@@ -1,9 +1,9 @@
-\* quick: every body of <= 4 statements over 9 evidence symbols (7381 bodies) x 3 helper shapes,
+\* quick: every body of <= 3 statements over 10 evidence symbols (1111 bodies) x 3 helper shapes,
 \* @Test, flat *Test.java layout
 SPECIFICATION Spec
 CONSTANTS
-  MaxBody = 4
-  Alphabet = {"print", "sleep", "assertEq", "assertTrue", "eqAssert", "eqPlain", "helper", "plain", "new"}
+  MaxBody = 3
+  Alphabet = {"print", "sleep", "assertEq", "assertTrue", "eqAssert", "eqPlain", "helper", "thisHelper", "plain", "new"}
   AnnoKinds = {"T"}
   HelperKinds = {"none", "assert", "print"}
   PathKinds = {"flatTest"}
